@@ -167,6 +167,10 @@ def element(draw, depth, scope, allow_metal_slot=False):
     for key in ("content", "replace"):
         if key in cmds:
             mode = draw(st.sampled_from(["", "", "text ", "structure "]))
+            if "repeat" in tal and draw(st.integers(0, 3)) == 0:
+                # on the loop's own element: a value for some iterations, `default` (the template's body) or nothing for others
+                tal[key] = mode + "%s/k_opt | %s" % (tal["repeat"].split()[0], draw(st.sampled_from(["default", "default", "nothing"])))
+                continue
             tal[key] = mode + draw(expr(sc))
     if "attributes" in cmds:
         cl = []
